@@ -6,6 +6,7 @@ same type at every position, dict order and float bit patterns preserved".
 
 from __future__ import annotations
 
+import random
 import struct
 import sys
 
@@ -356,6 +357,16 @@ def _named(name: str, base=object):
     return type(name, (base,), {})
 
 
+_srng = random.Random(0xC01)
+
+
+def _any_surrogate_str():
+    """a short string with one lone surrogate from anywhere in U+D800..U+DFFF at a generated position"""
+    body = [chr(_srng.choice((0x41, 0xE9, 0x65E5, 0x1F600))) for _ in range(_srng.randrange(0, 5))]
+    body.insert(_srng.randrange(len(body) + 1), chr(_srng.randrange(0xD800, 0xE000)))
+    return "".join(body)
+
+
 def unsupported_leaves():
     """(label, factory, hashable) for values no part of which may be serialised."""
     import collections
@@ -395,6 +406,17 @@ def unsupported_leaves():
         ("fraction", lambda: fractions.Fraction(1, 3), True),
         ("lone_surrogate_str", lambda: "a\ud800b", True),
         ("lone_low_surrogate_str", lambda: "\udfff", True),
+        # the whole surrogate block is non-encodable, including the U+DC80..U+DCFF window that the
+        # "surrogateescape" error handler would map back to raw bytes
+        ("surrogate_str_dbff", lambda: "x\udbff", True),
+        ("surrogate_str_dc00", lambda: "\udc00y", True),
+        ("surrogate_str_dc7f", lambda: "\udc7f", True),
+        ("surrogate_str_dc80", lambda: "caf\udc80", True),
+        ("surrogate_str_dce9", lambda: "caf\udce9.txt", True),
+        ("surrogate_str_dcff", lambda: "\udcff", True),
+        ("surrogate_str_dd00", lambda: "\udd00", True),
+        ("surrogate_pair_halves_reversed", lambda: "\udc00\ud800", True),
+        ("surrogate_str_any", _any_surrogate_str, True),
         ("module", lambda: struct, True),
         ("exception", lambda: ValueError("x"), True),
         ("slice", lambda: slice(1, 2), False),
